@@ -526,7 +526,8 @@ class TdmsChannel(object):
     def __iter__(self):
         """ Returns an iterator over the values in this channel
         """
-        if self._raw_data is not None:
+        if self._raw_data is not None or self.data_type is None:
+            # Data has been read, or the channel has no data so there is nothing to read
             return iter(self.data)
         else:
             return self._read_data_values()
